@@ -59,6 +59,36 @@ pub fn generate(g: &mut Gen) {
         let netc = NetSpec { input: Shape::Triple(1, 2, 2), builds: vec![Build::Layer(conv)], skipacc: "add".into(), loopacc: "mean".into(), opt: None, obj: "mse".into(), clamp: None };
         g.push(format!("net {} predict {}", netc.token(), qt(&Tensor::triple(vec![vec![xs[..2].to_vec(), xs[2..].to_vec()]]))), Tol::Tight, "conv/scale", true);
     }
+    // the smallest sizes: one output unit (also under soft-max: a soft-max over one value is 1), a kernel as large as the
+    // input (1x1x1 output), one channel / filter
+    for act in ["relu", "leaky", "sigmoid", "tanh", "linear", "softmax"] {
+        let spec = dense_spec(g, &cfg, 3, 1, act, true);
+        single_layer(g, spec, Sh::Flat(3), &format!("dense-one-unit/{}", act));
+        let ks = vec![weights(g, &Shape::Triple(1, 2, 2), 0.6)];
+        single_layer(g, InnerSpec::Conv { filters: 1, act: act.to_string(), k: (2, 2), s: (1, 1), p: (0, 0), d: (1, 1), dropout: None, ks }, Sh::Vol(1, 2, 2),
+            &format!("conv-one-cell/{}", act));
+        let ks = vec![weights(g, &Shape::Triple(1, 1, 1), 0.6)];
+        single_layer(g, InnerSpec::Deconv { filters: 1, act: act.to_string(), k: (1, 1), s: (1, 1), p: (0, 0), dropout: None, ks }, Sh::Vol(1, 1, 1),
+            &format!("deconv-one-cell/{}", act));
+    }
+    // small maps with many channels under padding (the padded height does not exceed the channel count): 1x1 with 3
+    // channels, 2x2 with 4 and 5, 3x3 with 5, rectangular 2x3 with 6
+    for (c, h, w) in [(3usize, 1usize, 1usize), (4, 2, 2), (5, 2, 2), (5, 3, 3), (6, 2, 3), (4, 1, 2)] {
+        let ks = (0..2).map(|_| weights(g, &Shape::Triple(c, 3, 3), 0.4)).collect();
+        single_layer(g, InnerSpec::Conv { filters: 2, act: "tanh".into(), k: (3, 3), s: (1, 1), p: (1, 1), d: (1, 1), dropout: None, ks }, Sh::Vol(c, h, w),
+            &format!("conv-many-channels/{}x{}x{}", c, h, w));
+    }
+    // pre-activations of every size through an element-wise activation alone (weight 1, no bias): the activation of a tiny
+    // pre-activation is not lost (tanh z = z, sigmoid z = 1/2 + z/4 to first order), that of a huge one saturates
+    for act in ["tanh", "sigmoid", "relu", "leaky", "linear"] {
+        for scale in [1e-30f32, 1e-12, 1e-9, 3e-8, 1e-6, 1e-4, 1e-2, 1.0, 30.0] {
+            let w = Tensor::double((0..4).map(|i| (0..4).map(|j| if i == j { 1.0 } else { 0.0 }).collect()).collect());
+            let spec = InnerSpec::Dense { out: 4, act: act.to_string(), bias: false, dropout: None, w, b: None };
+            let net = NetSpec { input: Shape::Single(4), builds: vec![Build::Layer(spec)], skipacc: "add".into(), loopacc: "mean".into(), opt: None, obj: "mse".into(), clamp: None };
+            let xs: Vec<f32> = [1.7f32, -1.3, 0.9, -2.6].iter().map(|v| v * scale).collect();
+            g.push(format!("net {} predict {}", net.token(), qt(&Tensor::single(xs))), Tol::Tight, &format!("activation-alone/{}", act), true);
+        }
+    }
     // a prediction made after a training run that stopped early is still the composition of the layers' operators: the
     // network must be back in inference mode
     crate::gen::netprops::early_stopped_dropout_learn(g, "after-early-stop");
